@@ -53,6 +53,20 @@ class CompileMapper(StringifyMapper):
         else:
             return result
 
+    def map_common_subexpression(self, expr, enclosing_prec):
+        # a common subexpression means its child; the display form "CSE(...)"
+        # of the base class is not executable
+        return self.rec(expr.child, enclosing_prec)
+
+    def rec_with_force_parens_around(self, expr, *args, **kwargs):
+        # the forced parentheses are decided from the type of the operand:
+        # look through common-subexpression wrappers, which print as their child
+        from pymbolic.primitives import CommonSubexpression
+        while isinstance(expr, CommonSubexpression):
+            expr = expr.child
+        return StringifyMapper.rec_with_force_parens_around(
+                self, expr, *args, **kwargs)
+
     def map_polynomial(self, expr, enclosing_prec):
         # Use Horner's scheme to evaluate the polynomial
 
